@@ -336,7 +336,8 @@ def overrides(ctx, P):
         got = unparse(rules.inline_locals(fn, [x for x in ast.walk(fn) if isinstance(x, ast.Return)][0].value)).replace(" ", "") if fn else "?"
         ob.ok("%s.%s" % (cname, m), got[:60])
         alt = inner.replace("_sample(self.simulation.current_time", "_sample(t=self.simulation.current_time")
-        if got not in ("Decimal(str(%s))" % inner, "Decimal(str(%s))" % alt):
+        alt2 = inner.replace("_sample(self.simulation.current_time,ind=ind)", "_sample(ind=ind,t=self.simulation.current_time)")      # keywords are listed alphabetically (normal form)
+        if got not in ("Decimal(str(%s))" % inner, "Decimal(str(%s))" % alt, "Decimal(str(%s))" % alt2):
             ctx.violation(ob, "R11.decimal-of-float", "%s.%s" % (cname, m), got[:100], "sample-not-wrapped", "%s.%s must return Decimal(str(<validated sample of its own distribution>))" % (cname, m), loc(fn) if fn else "")
     # same servers as the base
     a = en.methods.get("create_starting_servers")
